@@ -466,6 +466,7 @@ type c13E2E struct {
 	Repeats  int         `json:"times_the_query_is_asked"`
 	FastAt   int64       `json:"slice_answered_first_contains_ns,omitempty"`
 	History  []c13Hist   `json:"later_queries_on_the_same_client,omitempty"`
+	Known    string      `json:"known_finding_class,omitempty"`
 	Repeated [][]c13R    `json:"result_of_repeated_call,omitempty"`
 	Err      string      `json:"error,omitempty"`
 	mu       sync.Mutex
@@ -482,6 +483,37 @@ type c13Hist struct {
 	Series   []c13Series `json:"series,omitempty"` // only when the expression differs
 	Result   []c13R      `json:"result,omitempty"`
 	Expected []c13R      `json:"expected_unsliced,omitempty"`
+}
+
+// Known finding C13-cache-key-rounds-end: rangeQuery.CacheKey identifies a slice by End.Round(step), so two queries whose
+// ends differ by less than a step but lie on different sides of a grid point share the cached LAST slice: the later one
+// is answered without (or with) that grid point.  Class predicate: an earlier query on the same client has the same
+// expression, step and start second, an end that rounds to the same multiple of the step, and a different number of grid
+// points in the window.
+const c13KnownRoundedEnd = "C13-cache-key-rounds-end"
+
+func c13SharesRoundedEnd(c *c13E2E, name string, hi int) bool {
+	h := c.History[hi]
+	type q struct{ start, end, step int64 }
+	earlier := []q{{c.Start, c.End, c.Step}}
+	for _, o := range c.History[:hi] {
+		if o.Expr == h.Expr || (o.Expr == "" && h.Expr == name) {
+			earlier = append(earlier, q{o.Start, o.End, o.Step})
+		}
+	}
+	if h.Expr != name {
+		earlier = earlier[1:]
+	}
+	pts := func(x q) int64 {
+		return (c13WireNs(x.end) - c13FirstStart(x.start, x.end, x.end-x.start, x.step)) / x.step
+	}
+	for _, o := range earlier {
+		if o.step == h.Step && o.start/c13Sec == h.Start/c13Sec &&
+			c13RoundTo(o.end, o.step) == c13RoundTo(h.End, h.Step) && pts(o) != pts(q{h.Start, h.End, h.Step}) {
+			return true
+		}
+	}
+	return false
 }
 
 // start of the first slice RangeQuery asks for (independent reference: Go's Duration.Round / Time.Round)
@@ -662,6 +694,9 @@ func c13RunE2E(srv *c13Server, url string, c *c13E2E, watch *c13Watch) string {
 		if repeatFail != "" {
 			break
 		}
+		if h.Expr == "" {
+			h.Expr = name
+		}
 		ser := c.Series
 		if h.Series != nil {
 			ser = h.Series
@@ -683,6 +718,9 @@ func c13RunE2E(srv *c13Server, url string, c *c13E2E, watch *c13Watch) string {
 		if !c13EqRs(c13Canon(h.Result), h.Expected) {
 			repeatFail = fmt.Sprintf("a later query on the same client that differs from an earlier one only in its %s "+
 				"does not return the runs of its own unsliced evaluation (answered with slices cached for the other query?)", h.Kind)
+			if c13SharesRoundedEnd(c, name, hi) {
+				c.Known = c13KnownRoundedEnd
+			}
 		}
 	}
 	c.mu.Lock()
@@ -783,7 +821,15 @@ func c13GenHistory(r *rand.Rand, c *c13E2E, hist func(string)) []c13Hist {
 	size := int64(time.Duration(2 * time.Hour).Round(time.Duration(c.Step)))
 	for k := 1 + r.Intn(2); k > 0; k-- {
 		h := c13Hist{Expr: name, Start: c.Start, End: c.End, Lookback: c.Lookback, Step: c.Step}
-		switch r.Intn(4) {
+		switch r.Intn(5) {
+		case 4:
+			// the end moved by less than a step (what two calls of time.Now() do)
+			h.End = c13SafeNs(c.End - (1+r.Int63n(c.Step/c13Ms))*c13Ms)
+			if h.End <= h.Start+c.Step {
+				continue
+			}
+			h.Lookback = h.End - h.Start
+			h.Kind = "end-by-less-than-a-step"
 		case 0:
 			// another step; prefer one with the same slice size (the slices then have the same boundaries)
 			var same, other []int64
@@ -968,6 +1014,10 @@ func runC13(args []string) int {
 			rep.Cases[strconv.Itoa(c.ID)] = c
 		}
 		rep.sample(map[string]any{"kind": tag, "start_ns": c.Start, "end_ns": c.End, "step_ns": c.Step, "slices": len(c.Requests), "ranges": len(c.Final)})
+		if what != "" && c.Known != "" {
+			rep.failKnown(strconv.Itoa(c.ID), what, c, c.Known)
+			return
+		}
 		if what != "" {
 			rep.fail(strconv.Itoa(c.ID), what, c)
 			return
